@@ -191,6 +191,36 @@ func c13Run(c c13Case) []mc.Finding {
 	default:
 		c13Outcome = "error-later"
 	}
+	if c.Cfg.Target != "etag-seq" && err != nil {
+		// the work queue retries: the same parent (same UID, same generation) is looked at again and the hook
+		// gives the same answer. A rejected answer must be rejected again (nothing of it may have been kept),
+		// without a panic and without child writes.
+		w.DeliverAll()
+		w.Sim.ResetLog()
+		err2, p2, stack2 := w.syncKey("n1/p")
+		if p2 != nil {
+			bad("panic-on-retry", "the retry of a sync whose answer was rejected (%v) panicked: %v\n%s", err, p2, stack2)
+			return f
+		}
+		if c13Rejected(err) {
+			if !c13Rejected(err2) {
+				bad("rejection-not-repeated", "first sync rejected the answer (%v), the retry with the same answer did not (%v)", err, err2)
+			}
+			for _, r := range w.Sim.Log {
+				if r.Kind == kit.Leaf && r.Mutating() {
+					bad("writes-after-rejection", "retry after a rejected answer led to child write %s", r)
+				}
+			}
+		}
+		if c.Cfg.Target == "customize" {
+			// a related object changes: the event handler consults the customize answers it remembers
+			w.Sim.Edit(kit.Other, "n1", "r1", func(o map[string]interface{}) { kit.Labels(o, "rel", "1", "touched", "yes") })
+			if p3, stack3 := mc.Recover(func() { w.DeliverAll() }); p3 != nil {
+				bad("panic-on-related-event", "related-object event after a rejected customize answer panicked: %v\n%s", p3, stack3)
+				return f
+			}
+		}
+	}
 	if c.Cfg.Target == "etag-seq" {
 		// second call: the hook says "not modified"; nothing acceptable was ever cached, so this must be
 		// rejected too and no child may be written on the strength of the rejected first answer
